@@ -136,6 +136,45 @@ def run(tier, seed):
                 rep.samples.append({"program": prog, "root": [root, ctx], "subcalls": subs, "subsets_tried": len(subsets[:max_subsets])})
         nconc = concurrent_provenance(m, scratch, rep, 45 if tier == "quick" else 400)
         total += nconc
+        # recorded argument hashes when the arguments are dates / times: each hash the parent's record lists must be the
+        # hash of the call the body made and must name that call's memento, also after the record is re-read from disk
+        import datetime
+        import shutil
+        from twosigma.memento.storage_filesystem import FilesystemStorageBackend
+        from . import fnlib, fnmod
+        zones = [None, datetime.timezone.utc, datetime.timezone(datetime.timedelta(hours=5, minutes=30)), datetime.timezone(datetime.timedelta(hours=-3))]
+        stats["datetime_argument_cases"] = 0
+        for di in range(6 if tier == "quick" else 60):
+            whens = [datetime.datetime(2021, 1 + di % 12, 1 + rng.randrange(28), rng.randrange(24), rng.randrange(60), tzinfo=rng.choice(zones)) for _ in range(rng.randint(1, 4))]
+            if rng.random() < 0.3:
+                whens.append(datetime.date(2020, 2, 1 + di % 28))
+            batch = rng.random() < 0.5
+            path = os.path.join(scratch, "dstore%d" % di)
+            fnlib.set_env(m, scratch, {"fc": (FilesystemStorageBackend(path=path, memory_cache_mb=rng.choice([None, 1])), None)})
+            pre = [i for i in range(len(whens)) if rng.random() < 0.4]
+            meta = {"arguments": [w.isoformat() for w in whens], "batch": batch, "pre_memoized": pre}
+            try:
+                for i in pre:
+                    fnmod.dchild(whens[i], tag=i)
+                fnmod.dparent(whens, batch=batch)
+                want = [fnmod.dchild.fn_reference().with_args(w, tag=i).arg_hash for i, w in enumerate(whens)]
+                for label in ("same process", "re-read from disk"):
+                    if label != "same process":
+                        fnlib.set_env(m, scratch, {"fc": (FilesystemStorageBackend(path=path), None)})
+                    mm = fnmod.dparent.memento(whens, batch=batch)
+                    got = [x.arg_hash for x in mm.invocation_metadata.invocations] if mm is not None else None
+                    if got != want:
+                        rep.violation("C10:recorded-argument-hash-wrong:datetime-arguments", "%s: the record lists argument hashes %r, the calls made have %r" % (label, got, want), meta)
+                        break
+                    missing = [i for i, w in enumerate(whens) if fnmod.dchild.memento(w, tag=i) is None]
+                    if missing:
+                        rep.violation("C10:recorded-call-names-no-memento", "%s: sub-calls %r have no memento" % (label, missing), meta)
+                        break
+            except Exception as e:
+                rep.violation("C10:datetime-case-raised", "%s: %s" % (type(e).__name__, str(e)[:150]), meta)
+            total += 1
+            stats["datetime_argument_cases"] += 1
+            shutil.rmtree(path, ignore_errors=True)
         try:
             res = C.run_coq_cases("c10", R.HEADER, terms, "run_case", shard=200,
                                   case_type="list (nat * ndef) * list (nat * nat) * (nat * nat) * (outcome * list nat * list key * list nat)")
